@@ -32,4 +32,8 @@ for mf in sorted(glob.glob(str(V / "seeded" / "*" / "meta.json"))):
     own = ch.get(x["property"], {}).get("exit")
     others = ", ".join(k for k, v in sorted(ch.items()) if v["exit"] == 1 and k != x["property"]) or "-"
     conf = "" if x.get("confirmed") else " (NOT CONFIRMED)"
-    print(f"| {x['name']}{conf} | {x['property']} | {x['needs_to_manifest']} | {'caught' if own == 1 else ('missed' if own == 0 else 'not run')}{' *' if x.get('strengthened') else ''} | {others} |")
+    bf = x.get("own_check_before_strengthening")
+    note = ""
+    if x.get("strengthened"):
+        note = " (after strengthening: " + x["strengthened"] + (f"; the earlier version exited {bf['exit']}" if bf else "") + ")"
+    print(f"| {x['name']}{conf} | {x['property']} | {x['needs_to_manifest']} | {'caught' if own == 1 else ('missed' if own == 0 else 'not run')}{note} | {others} |")
